@@ -165,7 +165,7 @@ Qed.
 (* ---------- failing alternatives, by first byte ---------- *)
 
 Lemma null_err c s : byte_eqb x6e c = false -> null (c :: s) = PErr.
-Proof. intro H. unfold null, ptag. cbn [bs String.list_byte_of_string prefixb]. cbn. rewrite H. reflexivity. Qed.
+Proof. intro H. unfold null, pkeyword, ptag. cbn [bs String.list_byte_of_string prefixb]. cbn. rewrite H. reflexivity. Qed.
 
 (* bytes that begin neither a keyword nor a number: the first five alternatives fail *)
 Definition nonnum_lead (c : byte) : bool :=
@@ -213,12 +213,37 @@ Lemma alts_nil elem cont ar n : object_alts_c elem cont ar n [] = PErr.
 Proof. destruct ar; destruct cont; reflexivity. Qed.
 
 (* ----- the simple kinds ----- *)
-Lemma alts_null elem cont ar n rest : object_alts_c elem cont ar n (bs "null" ++ rest) = POk ONull rest.
-Proof. reflexivity. Qed.
-Lemma alts_true elem cont ar n rest : object_alts_c elem cont ar n (bs "true" ++ rest) = POk (OBool true) rest.
-Proof. reflexivity. Qed.
-Lemma alts_false elem cont ar n rest : object_alts_c elem cont ar n (bs "false" ++ rest) = POk (OBool false) rest.
-Proof. reflexivity. Qed.
+(* a keyword is a whole token (token_end): it is read back when no regular byte follows *)
+Definition kw_follow (rest : bytes) : Prop := starts_with is_regular rest = false.
+
+Lemma token_end_follow rest : kw_follow rest -> token_end rest = true.
+Proof. unfold kw_follow. destruct rest as [|c t]; [reflexivity|]. cbn. intros ->. reflexivity. Qed.
+
+Lemma pkeyword_ok t rest :
+  ptag t (t ++ rest) = POk tt rest -> kw_follow rest -> pkeyword t (t ++ rest) = POk tt rest.
+Proof. intros E H. unfold pkeyword. rewrite E, (token_end_follow _ H). reflexivity. Qed.
+
+Lemma alts_null elem cont ar n rest : kw_follow rest ->
+  object_alts_c elem cont ar n (bs "null" ++ rest) = POk ONull rest.
+Proof.
+  intro H. unfold object_alts_c, null. rewrite (pkeyword_ok (bs "null") rest eq_refl H). reflexivity.
+Qed.
+Lemma alts_true elem cont ar n rest : kw_follow rest ->
+  object_alts_c elem cont ar n (bs "true" ++ rest) = POk (OBool true) rest.
+Proof.
+  intro H. unfold object_alts_c.
+  assert (null (bs "true" ++ rest) = PErr) as -> by reflexivity. cbn [palt].
+  unfold boolean. rewrite (pkeyword_ok (bs "true") rest eq_refl H). reflexivity.
+Qed.
+Lemma alts_false elem cont ar n rest : kw_follow rest ->
+  object_alts_c elem cont ar n (bs "false" ++ rest) = POk (OBool false) rest.
+Proof.
+  intro H. unfold object_alts_c.
+  assert (null (bs "false" ++ rest) = PErr) as -> by reflexivity. cbn [palt].
+  unfold boolean.
+  assert (pkeyword (bs "true") (bs "false" ++ rest) = PErr) as -> by reflexivity.
+  rewrite (pkeyword_ok (bs "false") rest eq_refl H). reflexivity.
+Qed.
 
 Lemma alts_name elem cont ar n k rest :
   name_follow rest = true -> object_alts_c elem cont ar n (write_name k ++ rest) = POk (OName k) rest.
@@ -269,7 +294,7 @@ Proof. intro H. destruct c; try discriminate H; repeat split; reflexivity. Qed.
 
 Lemma boolean_err c s : byte_eqb c x74 = false -> byte_eqb c x66 = false -> boolean (c :: s) = PErr.
 Proof.
-  intros H1 H2. unfold boolean, ptag. cbn. 
+  intros H1 H2. unfold boolean, pkeyword, ptag. cbn. 
   assert (byte_eqb x74 c = false) as -> by (apply byte_eqb_neq; apply byte_eqb_neq in H1; congruence).
   assert (byte_eqb x66 c = false) as -> by (apply byte_eqb_neq; apply byte_eqb_neq in H2; congruence).
   reflexivity.
@@ -390,6 +415,7 @@ Definition follow_ok (ar : bool) (o : obj) (rest : bytes) : Prop :=
   match o with
   | OInt _ | OReal _ => num_follow ar rest
   | OName _ => name_follow rest = true
+  | ONull | OBool _ => kw_follow rest
   | _ => True
   end.
 
@@ -413,7 +439,7 @@ Qed.
 
 Lemma cont_follow ar o rest : cont_ok rest -> follow_ok ar o rest.
 Proof.
-  intros [H1 [H2 H3]]. destruct o; cbn [follow_ok]; try exact I.
+  intros [H1 [H2 H3]]. destruct o; cbn [follow_ok]; try exact I; try exact H1.
   - split; [apply not_regular_follow; exact H1|intros _; exact H2].
   - split; [apply not_regular_follow; exact H1|intros _; exact H2].
   - unfold name_follow. rewrite H1. reflexivity.
@@ -722,8 +748,8 @@ Theorem object_rt : forall o ar rest f depth,
 Proof.
   induction o as [|b|z|r|n|s h|l Hl|d Hd|d c Hd|i g] using obj_rt_ind; intros ar rest f depth Hw Hr Hf Hlen Hdp;
     inversion Hw; subst.
-  - apply alts_null.
-  - destruct b; [apply alts_true|apply alts_false].
+  - apply alts_null. exact Hf.
+  - destruct b; [apply alts_true|apply alts_false]; exact Hf.
   - apply alts_int; assumption.
   - apply alts_real; assumption.
   - apply alts_name. exact Hf.
